@@ -116,7 +116,8 @@ def run_sequences(c):
                       rq("changeLabels", add=["x", "y"]), rq("changeLabels", add=["x"], rem=["y"]), rq("editComment", i=2), rq("editCommentAmbiguous"), rq("editComment", i=1), rq("closeBug"),
                       rq("closeBug"), rq("openBug", auth=False), rq("openBug"), rq("setTitle"), rq("setTitleEmpty"), rq("unknownBug"), rq("addComment", auth=False),
                       rq("addComment"), rq("changeLabels", rem=["x", "y"])]}
-    scheds = [fixed, fixed, fixed] + seq_schedules(c, 30 if c.tier == "quick" else 600)     # the fixed one under each configured user
+    raced = {"reqs": [dict(r, race=r["auth"]) for r in fixed["reqs"]]}
+    scheds = [fixed, fixed, fixed, raced, raced, raced] + seq_schedules(c, 30 if c.tier == "quick" else 600)     # the fixed ones under each configured user
     # TLC's simulation picks uniformly among successor states, i.e. mostly label changes (one per pair of label sets): add
     # sequences drawn uniformly over the request kinds (the trace specification judges them all the same way)
     import random
@@ -131,6 +132,7 @@ def run_sequences(c):
             if name == "editCommentAmbiguous" and ncomments < 2:
                 name = "addComment"
             r = rq(name, auth=auth)
+            r["race"] = auth and rnd.random() < 0.25
             if name == "editComment":
                 r["i"] = rnd.randint(1, 3)
             if name == "changeLabels":
